@@ -58,6 +58,10 @@ func genC03(g *G, n int, out io.Writer) {
 		nv := g.n(6)
 		rg := &ruleGen{g: g, nAtoms: len(c.Atoms), nPaths: len(c.Paths), used: map[string]int{}}
 		names := []string{"v0", "v1", "warning", "message", "v4", "and"}
+		if i%5 == 3 {
+			// validations whose names differ only in the case of their letters are different validations
+			names = []string{"v0", "V0", "warning", "Warning", "WARNING", "and"}
+		}
 		for v := 0; v < nv; v++ {
 			cls := NS + "T"
 			if g.coin(0.3) {
@@ -86,7 +90,19 @@ func genC03(g *G, n int, out io.Writer) {
 			if g.coin(0.25) {
 				// listed but not defined, at any position of the list
 				at := g.n(len(lst) + 1)
-				lst = append(lst[:at], append([]string{"ghost"}, lst[at:]...)...)
+				ghost := "ghost"
+				if len(c.Validations) > 0 && g.coin(0.5) {
+					// … among them the name of a defined validation in another capitalisation, or with a blank after it: names are
+					// compared as written
+					v0 := c.Validations[g.n(len(c.Validations))].Name
+					ghost = g.pick([]string{strings.ToUpper(v0), strings.Title(v0), v0 + " ", " " + v0})
+					for _, v := range c.Validations {
+						if v.Name == ghost {
+							ghost = "ghost"
+						}
+					}
+				}
+				lst = append(lst[:at], append([]string{ghost}, lst[at:]...)...)
 			}
 			c.Levels[l] = lst
 		}
